@@ -624,6 +624,67 @@ def check_full(acc, part, v, m, rg, case, partners, initial=True):
                               {"a": [m.i, m.o, m.cal], "b": [pm.i, pm.o, pm.cal]})
             elif pm.o != m.o or pm.cal != m.cal:
                 acc.count(nontrivial=1)
+        # partners with EQUAL FIELD VALUES in other calendars: the same (year, month, day) numbers, time and offset read in
+        # another calendar denote another physical day (and the days next to it); a - b must still be the instant difference
+        y, mo, dd = v.year, v.month, v.day
+        if initial:
+            others = [c for c in E.cal_ids if c != m.cal]
+        else:
+            k = E.cal_ids.index(m.cal)
+            others = [E.cal_ids[(k + j) % len(E.cal_ids)] for j in (1, 7)]
+        lt = LocalTime.from_nanoseconds_since_midnight(n)
+        for c2 in others:
+            fd = field_date(y, mo, dd, c2)
+            if fd is None:
+                acc.outcome("equal-field partner: (y, m, d) not a date of the other calendar")
+                continue
+            for shift in ((0, 1, -1) if initial else (0,)):
+                try:
+                    pdate = fd if shift == 0 else fd.plus_days(shift)
+                except Exception as e:  # noqa: BLE001
+                    if exc_origin(e) == "harness":
+                        raise
+                    continue
+                pm = R.M(R.instant_of(day_of(pdate), n, m.o), m.o, c2)
+                if not rg.instant_ok(pm.i):
+                    continue
+                acc.count(evaluations=2)
+                try:
+                    pv = OffsetDateTime(pdate + lt, off)
+                    es = [(v - pv).to_nanoseconds(), -(pv - v).to_nanoseconds()]
+                    if initial and shift == 0:
+                        es += [v.minus(pv).to_nanoseconds(), OffsetDateTime.subtract(v, pv).to_nanoseconds()]
+                except Exception as e:  # noqa: BLE001
+                    acc.lib_exception("C11/%s/elapsed" % part, e, {"a": [m.i, m.o, m.cal], "b": [pm.i, pm.o, pm.cal]})
+                    continue
+                want = R.m_elapsed(m, pm)
+                if any(x != want for x in es):
+                    acc.violation("C11/%s/elapsed/cross-cal-equal-fields%s" % (part, "" if shift == 0 else "+-1day"),
+                                  "a - b with a=(instant %d, offset %d, %s) and b = the same field values %04d-%02d-%02d%s in %s (instant %d): "
+                                  "-, reversed -, minus, subtract give %r; the instants differ by %d"
+                                  % (m.i, m.o, m.cal, y, mo, dd, "" if shift == 0 else " %+d day" % shift, c2, pm.i, es, want),
+                                  {"a": [m.i, m.o, m.cal], "b": [pm.i, pm.o, pm.cal]})
+                else:
+                    acc.count(nontrivial=1)
+                    acc.outcome("equal-field partner in another calendar: elapsed time ok")
+
+
+_FIELD_DATE = {}
+
+
+def field_date(y, mo, dd, cal_id):
+    """LocalDate(y, mo, dd) in another calendar, or None when these numbers are not a date there."""
+    k = (y, mo, dd, cal_id)
+    if k not in _FIELD_DATE:
+        if len(_FIELD_DATE) > 200_000:
+            _FIELD_DATE.clear()
+        try:
+            _FIELD_DATE[k] = LocalDate(y, mo, dd, env().cals[cal_id])
+        except Exception as e:  # noqa: BLE001
+            if exc_origin(e) == "harness":
+                raise
+            _FIELD_DATE[k] = None
+    return _FIELD_DATE[k]
 
 
 def make_partners(rg):
